@@ -336,6 +336,9 @@ func runOnce(c *hlib.Ctx, s *choice.Stream, freezeClock bool) *hlib.Run {
 			if crowd && k == 1 && s.Draw(3, "crowd-mostly-multiple") != 0 {
 				k = 0
 			}
+			if crowd && k == 2 {
+				k = 0 // no AddValue in crowd runs: the linearizability check of a 100-operation history must stay trivial (wall-clock timeouts would make the verdict depend on machine load)
+			}
 			if k == 2 && (precomputed || len(newKeys) == 0) {
 				k = s.Draw(2, "op-kind2")
 			}
